@@ -1,0 +1,51 @@
+//go:build verif
+
+// Add-only observation hooks for the /verif property C17 (parallel estimation is
+// schedule independent).  Nothing here is called by the library itself.
+
+package vectorEstimator
+
+/* -------------------------------------------------------------------------- */
+
+import   "fmt"
+
+import   "github.com/pbenner/autodiff/algorithm/saga"
+import . "github.com/pbenner/threadpool"
+
+/* -------------------------------------------------------------------------- */
+
+// The worker slices of the last SAGA run as [from,to) offsets into Indices.
+func VerifC17SagaPartition(obj *LogisticRegression) [][2]int {
+  s := &obj.sagaLogisticRegressionL1
+  r := make([][2]int, len(s.Workers))
+  for i := 0; i < len(s.Workers); i++ {
+    from := cap(s.Indices) - cap(s.Workers[i].indices)
+    r[i]  = [2]int{from, from + len(s.Workers[i].indices)}
+  }
+  return r
+}
+
+// Same as the sparse L1 branch of LogisticRegression.Estimate, but the workers
+// created for the pool p are iterated on the nil pool (sequentially, in order).
+func VerifC17SagaSequential(obj *LogisticRegression, p ThreadPool) error {
+  if !obj.sparse || obj.L2Reg != 0.0 || obj.TiReg != 0.0 {
+    return fmt.Errorf("VerifC17SagaSequential: only the specialised sparse L1 implementation")
+  }
+  if err := obj.sagaLogisticRegressionL1.Initialize(saga.Objective1Sparse(obj.f_sparse), len(obj.x_sparse), obj.Theta,
+    saga.L1Regularization{obj.L1Reg},
+    saga.Gamma           {obj.stepSize},
+    saga.Seed            {obj.Seed}, p); err != nil {
+    return err
+  }
+  obj.sagaLogisticRegressionL1.Pool = Nil()
+  if r, s, err := obj.sagaLogisticRegressionL1.Execute(
+    saga.Epsilon         {obj.Epsilon},
+    saga.MaxIterations   {obj.MaxIterations},
+    saga.Hook            {obj.Hook}); err != nil {
+    return err
+  } else {
+    obj.Seed = s
+    obj.SetParameters(r)
+    return nil
+  }
+}
